@@ -604,7 +604,7 @@ impl DrawState {
 
             // An empty first line does not wrap by itself: print a blank so that it occupies
             // the row it is counted for (the last line gets its filler below).
-            let mut used = line.console_width();
+            let mut used = line.padded_width(term_width);
             if idx == 0 && nothing_cleared && self.lines.len() > 1 && used == 0 {
                 term.write_str(" ")?;
                 used = 1;
@@ -716,13 +716,48 @@ impl LineType {
     fn wrapped_height(&self, width: usize) -> VisualLines {
         // Calculate real length based on terminal width
         // This take in account linewrap from terminal
-        let terminal_len = (self.console_width() as f64 / width as f64).ceil() as usize;
+        let terminal_len = (self.padded_width(width) as f64 / width as f64).ceil() as usize;
 
         // If the line is effectively empty (for example when it consists
         // solely of ANSI color code sequences, count it the same as a
         // new line. If the line is measured to be len = 0, we will
         // subtract with overflow later.
         usize::max(terminal_len, 1).into()
+    }
+
+    /// The display width of the line plus the columns a terminal of `width` columns leaves
+    /// empty at the end of a row because the next character is two columns wide and moves to
+    /// the next row as a whole.
+    fn padded_width(&self, width: usize) -> usize {
+        let text_width = self.console_width();
+        #[cfg(feature = "unicode-width")]
+        {
+            let mut col = 0;
+            let mut padding = 0;
+            for (s, is_ansi) in console::AnsiCodeIterator::new(self.as_ref()) {
+                if is_ansi {
+                    continue;
+                }
+                for c in s.chars() {
+                    let w = unicode_width::UnicodeWidthChar::width(c).unwrap_or(0);
+                    if w == 0 || w > width {
+                        continue;
+                    }
+                    let rest = width - col % width;
+                    if col % width != 0 && w > rest {
+                        padding += rest;
+                        col += rest;
+                    }
+                    col += w;
+                }
+            }
+            text_width + padding
+        }
+        #[cfg(not(feature = "unicode-width"))]
+        {
+            let _ = width;
+            text_width
+        }
     }
 
     fn console_width(&self) -> usize {
